@@ -1026,6 +1026,17 @@ theorem C06_key_checked_from_loses_reply :
     roundTrip { fromChecked := true } 7 8 [] .full .equiv = .lost ∧
     roundTrip { fromChecked := true } 7 8 [⟨.none, .id, 1⟩] .idn .ace = .lost := by decide
 
+/-- the delivery-receipt helper: the key of its table of pending receipts is the id the peer
+reads on the wire and acknowledges, for every attribute list of the message's start element -/
+theorem C06_key_receipts_wire_id_is_key (f₁ f₂ : Nat) (hf : f₁ ≠ 0) (attrs : List Attr) :
+    wireId (rcptSend f₁ f₂ attrs).2 = some (rcptSend f₁ f₂ attrs).1 ∧ (rcptSend f₁ f₂ attrs).1 ≠ 0 := by
+  simp only [rcptSend]
+  by_cases hv : lastId attrs 0 = 0
+  · simp [hv, encode, wireId, idOf, scanI, hf]
+  · simp [hv, encode, wireId, idOf, scanI]
+
+example : rcptSend 7 8 [⟨.foreign, .id, 2⟩, ⟨.none, .id, 0⟩] = (7, [⟨.none, .type, 1⟩, ⟨.none, .other, 1⟩, ⟨.none, .id, 7⟩]) := by decide
+
 /-- the complete small domain the differential runs cover (what the driver answers for it) -/
 example : (lists 2).all (fun as => allTo.all fun t => allFrom.all fun f => roundTrip {} 7 8 as t f = .reply) = true := by
   decide
